@@ -159,7 +159,9 @@ EXTRA_STRINGS = ["Fe1234567", "Fe123456", "Fe1000000", "Fe999999", "Fe999999.5",
                  "Fe0.000000001", "(Fe2O3)0.000001", "U[238]{6+}0.5", "Fe1.000001", "Fe1.0000001"]
 
 SCALES = [2, 3, 10, 0.5, 1.25, 12.5, 1e-9, 1e-6, 1e-5, 1e-4, 0.001, 1e3, 1e5, 999999, 1e6, 1234567, 1e9,
-          1e12, 123456, 0.000123456, 1.0000001, 1 + 1e-9, 0.9999999, 99999.95, 2.5e-7, 3.75e8, 7]
+          1e12, 123456, 0.000123456, 1.0000001, 1 + 1e-9, 0.9999999, 99999.95, 2.5e-7, 3.75e8, 7,
+          # "positive counts of any magnitude": far beyond the ranges in which '%g' switches notation
+          1.23456e-16, 9.99999e-16, 1e-18, 3.21987e-22, 4.4e-25, 1e15, 1.5e20, 6.02214e23]
 
 
 def random_scale(rng):
@@ -363,7 +365,7 @@ def task_roundtrip(tier, seed, arg):
              "runtime %.1f s" % (time.time() - t0)]
     return dict(evaluations=evals, distinct=len(seen),
                 rule="formulas from parsed reference derivations (shapes + random), from n*f / f+g / f+=g with "
-                     "n over 1e-12..1e12 (incl. decimals, 7-digit and near-1 factors), from mix_by_weight/"
+                     "n over 1e-25..1e24 (incl. decimals, 7-digit and near-1 factors), from mix_by_weight/"
                      "mix_by_volume with quantities over 15 orders of magnitude and from mixture strings; "
                      "atoms incl. D, T, their ions, isotope ions; distinct = distinct (str(f), table); count "
                      "comparison exact against the decimal rounding to 6 significant digits",
